@@ -211,26 +211,36 @@ func (o ChanOps[T]) Send(v T) {
 		return
 	}
 	cs := o.state(x)
-	op := &pend{desc: "send " + cs.String()}
-	w := &waiter{t: x.cur, op: op, box: &v}
 	if cs == nil {
-		op.ready = func() bool { return false }
-	} else {
-		op.ready = cs.canSend
-		if cs.cap == 0 {
-			cs.sendq = append(cs.sendq, w)
-		}
+		x.point(&pend{desc: "send chan(nil)", ready: func() bool { return false }})
+		return
 	}
+	if cs.cap > 0 {
+		x.point(&pend{desc: "send " + cs.String(), ready: cs.canSend})
+		x.tracef("send %s", cs)
+		x.doSend(cs, &v, copyT[T])
+		return
+	}
+	// unbuffered: phase 1, the send arrives; it completes at once if a receiver is already waiting
+	x.point(&pend{desc: "send " + cs.String()})
+	if cs.closed || len(cs.recvq) > 0 {
+		x.tracef("send %s (receiver waiting)", cs)
+		x.doSend(cs, &v, copyT[T])
+		return
+	}
+	// phase 2: wait for a receiver (which completes this operation) or for close
+	op := &pend{desc: "send(wait) " + cs.String()}
+	op.ready = func() bool { return cs.closed }
+	w := &waiter{t: x.cur, op: op, box: &v}
+	cs.sendq = append(cs.sendq, w)
+	x.hbEvent(&cs.hb, kArrive, 1)
 	x.point(op)
 	if op.done {
 		x.tracef("send %s (completed by receiver)", cs)
 		return
 	}
-	if cs.cap == 0 {
-		cs.sendq = removeWaiter(cs.sendq, w)
-	}
-	x.tracef("send %s", cs)
-	x.doSend(cs, &v, copyT[T])
+	cs.sendq = removeWaiter(cs.sendq, w)
+	x.doSend(cs, &v, copyT[T]) // closed: panics
 }
 
 func (o ChanOps[T]) recv() (T, bool) {
@@ -247,29 +257,41 @@ func (o ChanOps[T]) recv() (T, bool) {
 		return r, ok
 	}
 	cs := o.state(x)
-	op := &pend{desc: "recv " + cs.String()}
-	ok := false
-	w := &waiter{t: x.cur, op: op, box: &v, got: &ok}
 	if cs == nil {
-		op.ready = func() bool { return false }
-	} else {
-		op.ready = func() bool { return cs.canRecv(x) }
+		x.point(&pend{desc: "recv chan(nil)", ready: func() bool { return false }})
+		return v, false
+	}
+	if cs.cap > 0 || cs.isTimer {
+		op := &pend{desc: "recv " + cs.String(), ready: func() bool { return cs.canRecv(x) }}
 		if cs.isTimer {
 			op.due = cs.due
 			op.desc = "recv timer"
 		}
-		if cs.cap == 0 && !cs.isTimer {
-			cs.recvq = append(cs.recvq, w)
-		}
+		x.point(op)
+		ok := x.doRecv(cs, &v, copyT[T], zeroT[T])
+		x.tracef("recv %s ok=%v", cs, ok)
+		return v, ok
 	}
+	// unbuffered: phase 1, the receive arrives
+	x.point(&pend{desc: "recv " + cs.String()})
+	if len(cs.sendq) > 0 || cs.closed {
+		ok := x.doRecv(cs, &v, copyT[T], zeroT[T])
+		x.tracef("recv %s ok=%v (sender waiting / closed)", cs, ok)
+		return v, ok
+	}
+	// phase 2: wait for a sender (which completes this operation) or for close
+	ok := false
+	op := &pend{desc: "recv(wait) " + cs.String()}
+	op.ready = func() bool { return cs.closed }
+	w := &waiter{t: x.cur, op: op, box: &v, got: &ok}
+	cs.recvq = append(cs.recvq, w)
+	x.hbEvent(&cs.hb, kArrive, 2)
 	x.point(op)
 	if op.done {
 		x.tracef("recv %s (completed by sender)", cs)
 		return v, ok
 	}
-	if cs.cap == 0 && !cs.isTimer {
-		cs.recvq = removeWaiter(cs.recvq, w)
-	}
+	cs.recvq = removeWaiter(cs.recvq, w)
 	ok = x.doRecv(cs, &v, copyT[T], zeroT[T])
 	x.tracef("recv %s ok=%v", cs, ok)
 	return v, ok
@@ -449,10 +471,61 @@ func Select(hasDefault bool, cases ...SelCase) int {
 		return realSelect(hasDefault, cases)
 	}
 	st := &selState{fired: -2}
-	op := &pend{desc: "select"}
-	for i, c := range cases {
-		sc := c.sel()
-		st.cases = append(st.cases, sc)
+	for _, c := range cases {
+		st.cases = append(st.cases, c.sel())
+	}
+	readyCase := func(sc *selCase) bool {
+		if sc.cs == nil {
+			return false
+		}
+		if sc.send {
+			return sc.cs.canSend()
+		}
+		return sc.cs.canRecv(x)
+	}
+	anyReady := func() bool {
+		for _, sc := range st.cases {
+			if readyCase(sc) {
+				return true
+			}
+		}
+		return false
+	}
+	fire := func() int {
+		var ready []int
+		for i, sc := range st.cases {
+			if readyCase(sc) {
+				ready = append(ready, i)
+			}
+		}
+		if len(ready) == 0 {
+			return -1
+		}
+		k := ready[x.chooseFree(len(ready))]
+		sc := st.cases[k]
+		if sc.send {
+			x.doSend(sc.cs, sc.box, sc.copyTo)
+		} else {
+			*sc.w.got = x.doRecv(sc.cs, sc.box, sc.copyTo, sc.zero)
+		}
+		x.tracef("select: clause %d of %d ready", k, len(ready))
+		return k
+	}
+	// phase 1: the select arrives (always enabled); ready clauses are those whose partner is
+	// already waiting (or whose buffer / timer / closed state allows it)
+	x.point(&pend{desc: "select"})
+	if k := fire(); k >= 0 {
+		return k
+	}
+	if hasDefault {
+		x.tracef("select: default")
+		x.hbEvent(nil, kSelDefault, 0)
+		return -1
+	}
+	// phase 2: register on the unbuffered channels and wait
+	op := &pend{desc: "select(wait)"}
+	registered := false
+	for i, sc := range st.cases {
 		sc.w.t, sc.w.op, sc.w.sel, sc.w.idx = x.cur, op, st, i
 		if sc.cs == nil {
 			continue
@@ -466,39 +539,25 @@ func Select(hasDefault bool, cases ...SelCase) int {
 			} else {
 				sc.cs.recvq = append(sc.cs.recvq, sc.w)
 			}
+			x.hbEvent(&sc.cs.hb, kArrive, 3)
+			registered = true
 		}
 	}
-	readyCase := func(sc *selCase) bool {
-		if sc.cs == nil {
-			return false
-		}
-		if sc.send {
-			// a select must not rendezvous with its own receive clause on the same channel
-			if sc.cs.cap == 0 && !sc.cs.closed {
-				for _, w := range sc.cs.recvq {
-					if w.sel != st {
-						return true
-					}
-				}
-				return false
+	_ = registered
+	op.ready = func() bool {
+		// woken by: a partner completing a clause (op.done), or a buffered / timer / closed clause
+		// becoming ready. Other selects' or threads' waiters on the same unbuffered channel do not
+		// make this one ready: they are waiting too.
+		for _, sc := range st.cases {
+			if sc.cs == nil {
+				continue
 			}
-			return sc.cs.canSend()
-		}
-		if sc.cs.cap == 0 && !sc.cs.isTimer && len(sc.cs.buf) == 0 && !sc.cs.closed {
-			for _, w := range sc.cs.sendq {
-				if w.sel != st {
+			if sc.cs.cap == 0 && !sc.cs.isTimer {
+				if sc.cs.closed {
 					return true
 				}
+				continue
 			}
-			return false
-		}
-		return sc.cs.canRecv(x)
-	}
-	op.ready = func() bool {
-		if hasDefault {
-			return true
-		}
-		for _, sc := range st.cases {
 			if readyCase(sc) {
 				return true
 			}
@@ -507,33 +566,34 @@ func Select(hasDefault bool, cases ...SelCase) int {
 	}
 	x.point(op)
 	if op.done {
-		// a partner completed clause st.fired while we were parked (queues already cleaned)
 		x.tracef("select: clause %d completed by partner", st.fired)
-		if !st.cases[st.fired].send {
-			// Ok already set through waiter.got
-		}
 		return st.fired
 	}
 	st.unregister(x)
+	// only non-rendezvous clauses (or closed channels) can have woken us
 	var ready []int
 	for i, sc := range st.cases {
+		if sc.cs == nil {
+			continue
+		}
+		if sc.cs.cap == 0 && !sc.cs.isTimer && !sc.cs.closed {
+			continue
+		}
 		if readyCase(sc) {
 			ready = append(ready, i)
 		}
 	}
 	if len(ready) == 0 {
-		x.tracef("select: default")
-		x.hbEvent(nil, kSelDefault, 0)
-		return -1
+		panic("vsched: select woken without a ready clause")
 	}
 	k := ready[x.chooseFree(len(ready))]
 	sc := st.cases[k]
 	if sc.send {
 		x.doSend(sc.cs, sc.box, sc.copyTo)
 	} else {
-		ok := x.doRecv(sc.cs, sc.box, sc.copyTo, sc.zero)
-		*sc.w.got = ok
+		*sc.w.got = x.doRecv(sc.cs, sc.box, sc.copyTo, sc.zero)
 	}
-	x.tracef("select: clause %d of %d ready", k, len(ready))
+	x.tracef("select: clause %d (after waiting)", k)
+	_ = anyReady
 	return k
 }
